@@ -4,6 +4,7 @@ package slipsim
 
 import (
 	"bytes"
+	stdelliptic "crypto/elliptic"
 	"encoding/hex"
 	"encoding/json"
 	"errors"
@@ -52,17 +53,18 @@ const maxCallsPerOp = 10000
 
 // world is the state of the fault-injecting collaborator.
 type world struct {
-	cfg       *Config
-	calls     int
-	rejects   int
-	permAt    int
-	wrapped   bool
-	permFired bool
-	totalRej  int
-	order     *big.Int // group order of the curve, for the candidate mapping
-	warped    int
-	opIndex   int
-	totalPerm int
+	cfg        *Config
+	calls      int
+	rejects    int
+	permAt     int
+	wrapped    bool
+	permFired  bool
+	totalRej   int
+	order      *big.Int          // group order of the curve, for the candidate mapping
+	constShift map[string][]byte // serialized public parent -> the shift the curve uses for it (imported special parents)
+	warped     int
+	opIndex    int
+	totalPerm  int
 }
 
 func (w *world) reject(cand []byte) bool {
@@ -105,7 +107,11 @@ var two256 = new(big.Int).Lsh(big.NewInt(1), 256)
 // negative of the parent scalar (sum zero / point at infinity), values whose sum with the parent wraps around the order or
 // stays just below it, the parent scalar itself (point doubling). The reference model applies the same mapping, so what is
 // checked is slip10's control flow plus the real curve arithmetic exactly where HMAC outputs never land.
-func (w *world) warp(kind string, il []byte, parent *big.Int) []byte {
+func (w *world) warp(kind string, il []byte, parent *big.Int, parentPub []byte) []byte {
+	if c, ok := w.constShift[string(parentPub)]; ok && kind == "child" {
+		w.warped++
+		return c // an imported parent chosen so that this shift leads to a special point
+	}
 	if !w.cfg.Warp || w.order == nil {
 		return il
 	}
@@ -211,7 +217,7 @@ func (c faultCurve) NewPrivateKey(buf []byte) (slip10.Key, error) {
 	if err := c.w.decide(buf); err != nil {
 		return nil, err
 	}
-	k, err := c.inner.NewPrivateKey(c.w.warp("master", buf, nil))
+	k, err := c.inner.NewPrivateKey(c.w.warp("master", buf, nil, nil))
 	if err != nil {
 		return nil, err
 	}
@@ -240,7 +246,11 @@ func (k *faultKey) Shift(b []byte) (slip10.Key, error) {
 	if err := k.w.decide(b); err != nil {
 		return nil, err
 	}
-	shift := k.w.warp("child", b, k.scalar)
+	var pub []byte
+	if !k.inner.IsPrivate() {
+		pub = k.inner.Bytes()
+	}
+	shift := k.w.warp("child", b, k.scalar, pub)
 	c, err := k.inner.Shift(shift)
 	if err != nil {
 		return nil, err
@@ -309,7 +319,7 @@ func (r *runState) mix(s string) {
 
 // Run executes one configuration.
 func Run(cfg *Config) proto.End {
-	r := &runState{cfg: cfg, w: &world{cfg: cfg}, hash: 14695981039346656037}
+	r := &runState{cfg: cfg, w: &world{cfg: cfg, constShift: map[string][]byte{}}, hash: 14695981039346656037}
 	r.res.Faults, r.res.Probes, r.res.Tags = map[string]int{}, map[string]int{}, map[string]string{}
 	realCurve, modelCurve := curves(cfg.Curve)
 	if modelCurve.EC != nil {
@@ -353,9 +363,7 @@ func (r *runState) step(i int, op *Op, fc faultCurve, mc *ref.SlipCurve) {
 	w := r.w
 	w.calls, w.rejects, w.permAt, w.wrapped, w.permFired, w.opIndex = 0, 0, op.PermAt, op.Wrapped, false, i
 	mf := &ref.Faults{Reject: w.reject, Permanent: w.permanent}
-	if r.cfg.Warp {
-		mf.Warp = w.warp
-	}
+	mf.Warp = w.warp // the identity unless the run uses the candidate-mapping curve or imported special parents
 	var (
 		real     *slip10.ExtendedKey
 		err      error
@@ -384,7 +392,11 @@ func (r *runState) step(i int, op *Op, fc faultCurve, mc *ref.SlipCurve) {
 		if len(r.handles) == 0 {
 			return
 		}
-		src = &r.handles[op.Src%len(r.handles)]
+		if op.Src < 0 {
+			src = &r.handles[len(r.handles)-1] // the most recently added extended key
+		} else {
+			src = &r.handles[op.Src%len(r.handles)]
+		}
 		parent = "public"
 		if src.model.Private {
 			parent = "private"
@@ -415,6 +427,33 @@ func (r *runState) step(i int, op *Op, fc faultCurve, mc *ref.SlipCurve) {
 		hard = op.Index >= 1<<31
 		model, kind = src.model.Child(op.Index, mf)
 		call(func() { real, err = src.real.DeriveChild(op.Index) })
+	case "import":
+		// an extended PUBLIC key built by the caller from a point and a chain code (the fields of ExtendedKey are
+		// exported): the parent is chosen as Q - s*G for a special point Q (x = 0), and the pluggable curve uses the
+		// shift s for this parent, so the public child is exactly Q
+		api = "import"
+		if mc.EC == nil || len(mc.EC.ZeroXPoints()) == 0 {
+			return
+		}
+		zs := mc.EC.ZeroXPoints()
+		q := zs[int(op.Index)%len(zs)]
+		sBytes := kernelBytes(r.cfg.PlanSeed, uint64(i))
+		sInt := new(big.Int).SetBytes(sBytes)
+		sInt.Mod(sInt, mc.EC.N)
+		if sInt.Sign() == 0 {
+			sInt.SetInt64(1)
+		}
+		parentPub, ok := mc.EC.SubScalarBase(q, sInt)
+		if !ok {
+			return
+		}
+		x, y, _ := mc.EC.Decompress(parentPub)
+		cc, _ := hex.DecodeString(op.SeedHex)
+		cc = append(cc, make([]byte, 32)...)[:32]
+		w.constShift[string(parentPub)] = sInt.FillBytes(make([]byte, 32))
+		model, kind = &ref.XKey{Curve: mc, Private: false, Key: parentPub, ChainCode: cc}, ref.OK
+		real = &slip10.ExtendedKey{ChainCode: append([]byte{}, cc...), Key: &faultKey{w: w, inner: &elliptic.PublicKey{X: x, Y: y, Curve: stdCurve(r.cfg.Curve)}}}
+		r.res.Probes["imported_parent_of_special_point"] = 1
 	case "public":
 		api = "Public"
 		model, kind = src.model.Neuter(), ref.OK
@@ -425,13 +464,15 @@ func (r *runState) step(i int, op *Op, fc faultCurve, mc *ref.SlipCurve) {
 	desc := fmt.Sprintf("%s(%s", api, op.Kind)
 	switch op.Kind {
 	case "child":
-		desc = fmt.Sprintf("DeriveChild(#%d,%s,%d", op.Src%len(r.handles), parent, op.Index)
+		desc = fmt.Sprintf("DeriveChild(#%d,%s,%d", srcIndex(op.Src, len(r.handles)), parent, op.Index)
 	case "path":
 		desc = fmt.Sprintf("DeriveKeyFromPath(seed %dB,%v", len(op.SeedHex)/2, op.Path)
 	case "master":
 		desc = fmt.Sprintf("NewMasterKey(seed %dB", len(op.SeedHex)/2)
+	case "import":
+		desc = "ImportPublic(parent of a point with x = 0"
 	case "public":
-		desc = fmt.Sprintf("Public(#%d", op.Src%len(r.handles))
+		desc = fmt.Sprintf("Public(#%d", srcIndex(op.Src, len(r.handles)))
 	}
 	if op.PermAt > 0 {
 		desc += fmt.Sprintf(",permanent 1/%d", op.PermAt)
@@ -517,6 +558,34 @@ func (r *runState) step(i int, op *Op, fc faultCurve, mc *ref.SlipCurve) {
 			return
 		}
 	}
+}
+
+func srcIndex(src, n int) int {
+	if src < 0 {
+		return n - 1
+	}
+	return src % n
+}
+
+func kernelBytes(seed, i uint64) []byte {
+	out := make([]byte, 32)
+	h := kernel.Mix(seed, 31337, i)
+	for j := 0; j < 32; j += 8 {
+		h = kernel.SplitMix64(h)
+		for b := 0; b < 8; b++ {
+			out[j+b] = byte(h >> (8 * uint(b)))
+		}
+	}
+	return out
+}
+
+// stdCurve returns the crypto/elliptic curve behind the repository's curve of that name (needed to build a public key
+// from coordinates).
+func stdCurve(name string) stdelliptic.Curve {
+	if name == "nist256p1" {
+		return stdelliptic.P256()
+	}
+	return nil
 }
 
 func kindName(k ref.ErrKind) string {
@@ -612,6 +681,11 @@ func Gen(seed uint64, tier string) *Config {
 		switch x := r.IntN(100); {
 		case x < 60:
 			o = Op{Kind: "child", Src: r.IntN(16), Index: genIndex()}
+		case x < 63 && c.Curve == "nist256p1":
+			// an imported public parent whose next non-hardened child is a point with x = 0, and that child right away
+			o = Op{Kind: "import", Index: uint32(r.IntN(2)), SeedHex: genSeed()}
+			c.Ops = append(c.Ops, o)
+			o = Op{Kind: "child", Src: -1, Index: r.Uint32() &^ (1 << 31)}
 		case x < 72:
 			o = Op{Kind: "public", Src: r.IntN(16)}
 		case x < 90:
